@@ -78,7 +78,7 @@ Definition bpb_create (b : block) : M (N * bool) :=
 Definition parse_volume (id idx lba_start num_blocks : N) : M vol :=
   b <- cache_read lba_start ;;
   '(cc, fat32) <- bpb_create b ;;
-  if U32 <=? lba_start + bpb_total_blocks b then fail FormatError else
+  if U32 <=? lba_start + (bpb_total_blocks b - 1) then fail FormatError else
   let fat_start := le16 b 14 in
   second <- (if get8 b 16 =? 2 then x <- add32 fat_start (bpb_fat_size b) ;; ret (Some x) else ret None) ;;
   if fat32 then
